@@ -97,6 +97,10 @@ def run(ctx):
     n = 400 if ctx.thorough() else 60
     tmp = tempfile.mkdtemp(prefix="c09_", dir=os.path.join(core.VERIF, ".cache") if os.path.isdir(os.path.join(core.VERIF, ".cache")) else None)
     bad = None
+    corr = None
+    drv = core.Driver()
+    have = os.path.exists(drv.exe)
+    reach = []          # (text, how far the real lexer was driven)
     stats = collections.Counter()
     samples = []
     evals = 0
@@ -138,12 +142,24 @@ def run(ctx):
                 core.with_timer(5.0, p.parse, text)
                 end_pos = len(label) - len(sep) - 1
                 evals += 1
+                reach.append((text, box[0]))
                 if box[0] > end_pos + 2 and bad is None:
                     bad = {"what": "the lexer was driven %d characters past the END statement" % (box[0] - end_pos),
                            "label": label, "examined": box[0], "end_at": end_pos}
             except Exception as e:
                 if bad is None:
                     bad = {"what": "label followed by unbroken data failed to load (%s)" % type(e).__name__, "label": label}
+        # the model predicts exactly how far the lexer is driven (Token.last of the last token + look-ahead)
+        if have and reach:
+            outs = drv.run([io.model_parse_line("OMNI", t) for t, _ in reach])
+            for (t, got), o in zip(reach, outs):
+                mo = json.loads(o)
+                want_reach = min(mo.get("examined", -1) + 1, len(t) - 1)
+                stats["reach:" + ("same" if want_reach == got else "differs")] += 1
+                if corr is None and ("ok" not in mo or mo.get("exhausted") or want_reach != got):
+                    corr = {"what": "correspondence: the model's lexer generator stops at character %s, the real "
+                                    "lexer was driven to %s" % (want_reach, got), "text": t[:300] + "...",
+                            "model": {k: mo.get(k) for k in ("examined", "exhausted", "fail")}}
         # dump targets
         for enc in encio.ENCODERS:
             og = gen.ObjGen(rng, enc)
@@ -174,6 +190,8 @@ def run(ctx):
     kf = [f for f in core.load_known()["findings"] if f["property"] == "C09"]
     if bad:
         core.violation(ctx, "data", bad, True)
+    elif corr:
+        core.violation(ctx, "correspondence", corr, False)
     elif not lean["ok"]:
         core.violation(ctx, "proof", {"what": "C09 proof obligations no longer check", "broken": lean["problems"]}, False)
     for f in kf:
